@@ -438,3 +438,55 @@ mod test {
         );
     }
 }
+
+/// Thin wrappers used by the out-of-tree verification harness to call the private
+/// range algebra with plain arguments. No logic of their own.
+#[cfg(rust_lang_rustfmt_verif)]
+pub mod verif_hooks {
+    use super::*;
+
+    pub fn range_ops(
+        a: (usize, usize),
+        b: (usize, usize),
+    ) -> (bool, bool, bool, bool, Option<(usize, usize)>) {
+        let (ra, rb) = (Range::new(a.0, a.1), Range::new(b.0, b.1));
+        (
+            ra.is_empty(),
+            ra.contains(rb),
+            ra.intersects(rb),
+            ra.adjacent_to(rb),
+            ra.merge(rb).map(|r| (r.lo, r.hi)),
+        )
+    }
+
+    pub fn normalize(v: Vec<(usize, usize)>) -> Vec<(usize, usize)> {
+        let mut m = HashMap::new();
+        m.insert(
+            FileName::Stdin,
+            v.into_iter().map(|(l, h)| Range::new(l, h)).collect::<Vec<_>>(),
+        );
+        normalize_ranges(&mut m);
+        m.remove(&FileName::Stdin)
+            .unwrap()
+            .into_iter()
+            .map(|r| (r.lo, r.hi))
+            .collect()
+    }
+
+    /// (contains_line(line), contains_range(lo, hi)) on `FileLines::from_ranges({stdin: v})`;
+    /// `None` selects the empty map.
+    pub fn query(v: Option<Vec<(usize, usize)>>, line: usize, lo: usize, hi: usize) -> (bool, bool) {
+        let mut m = HashMap::new();
+        if let Some(v) = v {
+            m.insert(
+                FileName::Stdin,
+                v.into_iter().map(|(l, h)| Range::new(l, h)).collect::<Vec<_>>(),
+            );
+        }
+        let fl = FileLines::from_ranges(m);
+        (
+            fl.contains_line(&FileName::Stdin, line),
+            fl.contains_range(&FileName::Stdin, lo, hi),
+        )
+    }
+}
